@@ -331,7 +331,7 @@ func TestC14Batch(t *testing.T) {
 	c := ev.For("C14")
 	defer c.Done()
 	_ = spec.OFVersion
-	rapid.Check(t, func(rt *rapid.T) {
+	checkRapid(t, c, func(rt *rapid.T) {
 		g := c14G[gen.Pick(rt, "G", len(c14G))]
 		per := rapid.IntRange(1, 6).Draw(rt, "programs_per_goroutine")
 		procs := []int{1, 2, 4, 16}[gen.Pick(rt, "gomaxprocs", 4)]
